@@ -7,6 +7,7 @@ CONSTANTS
   MaxLen = 0
   WithBad = TRUE
   QueryEdges = FALSE
+  HostBits = "all"
   Canon = FALSE
   EmitLen = 2
 INIT Init
